@@ -782,6 +782,168 @@ impl IdentifyRig {
 
 use std::future::Future;
 
+// ---------------------------------------------------------------- usability oracle
+// Every value a decoder returns is pushed through the library's own total conversions that
+// consumers apply to it without further checks. A panic (or a broken round trip) there means
+// bytes from the network produced a value outside the domain of a consumer: `unusable`.
+
+fn usable_peer_id(p: &PeerId) -> Result<(), String> {
+    let bytes = p.to_bytes();
+    if PeerId::from_bytes(&bytes).ok().as_ref() != Some(p) {
+        return Err("peer id: to_bytes/from_bytes does not round-trip".into());
+    }
+    let text = p.to_base58();
+    if text != p.to_string() || text.parse::<PeerId>().ok().as_ref() != Some(p) {
+        return Err("peer id: to_base58/Display/from_str does not round-trip".into());
+    }
+    let mh: multihash::Multihash<64> = (*p).into();
+    if PeerId::from_multihash(mh).ok().as_ref() != Some(p) {
+        return Err("peer id: Multihash conversion does not round-trip".into());
+    }
+    // the infallible conversion consumers use to build a /p2p component
+    let mp: multiaddr::PeerId = (*p).into();
+    let addr = Multiaddr::empty().with(Protocol::Ip4([192, 0, 2, 1].into())).with(Protocol::Tcp(30333)).with(Protocol::P2p(mp));
+    if PeerId::try_from_multiaddr(&addr).as_ref() != Some(p) {
+        return Err("peer id: /p2p component does not round-trip".into());
+    }
+    let again = Multiaddr::try_from(addr.to_vec()).map_err(|_| "peer id: multiaddress with /p2p does not re-parse".to_string())?;
+    if PeerId::try_from_multiaddr(&again).as_ref() != Some(p) {
+        return Err("peer id: binary multiaddress with /p2p does not round-trip".into());
+    }
+    Ok(())
+}
+
+fn usable_multiaddr(a: &Multiaddr) -> Result<(), String> {
+    if Multiaddr::try_from(a.to_vec()).ok().as_ref() != Some(a) {
+        return Err("multiaddress: to_vec/try_from does not round-trip".into());
+    }
+    if let Some(p) = PeerId::try_from_multiaddr(a) {
+        usable_peer_id(&p)?;
+    }
+    let _ = a.to_string();
+    Ok(())
+}
+
+/// What the Kademlia handler does with a decoded peer: the addresses get the peer id appended
+/// where missing (`TransportService::add_known_address`, `RoutingTable::add_known_peer`) and
+/// the peer goes into the real routing table.
+fn usable_kad_peer(peer: &dc::KademliaPeer) -> Result<(), String> {
+    use litep2p::verif::kad::{peer_info, peer_key, RoutingTable};
+    let (id, _, connection, _) = peer_info(peer);
+    usable_peer_id(&id)?;
+    let addresses = peer.addresses();
+    for a in &addresses {
+        usable_multiaddr(a)?;
+        let full = if matches!(a.iter().last(), Some(Protocol::P2p(_))) { a.clone() } else { a.clone().with(Protocol::P2p(id.into())) };
+        usable_multiaddr(&full)?;
+    }
+    let mut table = RoutingTable::new(peer_key(PeerId::random()));
+    table.add_known_peer(id, addresses, connection);
+    let _ = table.closest(&peer_key(id), 20);
+    // and back onto the wire, as a FIND_NODE response relaying the peer would
+    let again = dc::KademliaMessage::find_node_response(&[1u8, 2, 3][..], vec![peer.clone()]);
+    match dc::KademliaMessage::from_bytes(BytesMut::from(&again[..]), 20) {
+        Some(dc::KademliaMessage::FindNode { peers, .. }) if peers.len() == 1 && peer_info(&peers[0]).0 == id => Ok(()),
+        _ => Err("kademlia peer: re-encoded peer does not decode to itself".into()),
+    }
+}
+
+fn usable_kad_message(m: &dc::KademliaMessage) -> Result<(), String> {
+    let rec = |r: &dc::Record| r.publisher.as_ref().map(usable_peer_id).unwrap_or(Ok(()));
+    match m {
+        dc::KademliaMessage::FindNode { peers, .. } => peers.iter().try_for_each(usable_kad_peer),
+        dc::KademliaMessage::PutValue { record } => rec(record),
+        dc::KademliaMessage::GetRecord { record, peers, .. } => {
+            record.as_ref().map(rec).unwrap_or(Ok(()))?;
+            peers.iter().try_for_each(usable_kad_peer)
+        }
+        dc::KademliaMessage::AddProvider { providers, .. } => providers.iter().try_for_each(usable_kad_peer),
+        dc::KademliaMessage::GetProviders { peers, providers, .. } => peers.iter().chain(providers).try_for_each(usable_kad_peer),
+    }
+}
+
+/// Run a usability check under `catch`; on failure the observation becomes `unusable` and
+/// carries the input bytes.
+fn judge_usable(mut ev: Value, input: &[u8], check: impl FnOnce() -> Result<(), String>) -> Value {
+    let r = match catch(check) {
+        Ok(Ok(())) => return ev,
+        Ok(Err(why)) => why,
+        Err(p) => format!("consumer conversion panicked: {p}"),
+    };
+    ev["out"] = json!("unusable");
+    ev["note"] = json!(r);
+    ev["input"] = json!(hex::encode(&input[..input.len().min(4096)]));
+    ev
+}
+
+/// F. a peer id of class `c` carried inside a Kademlia message (or bare).
+fn run_kadpid(c: &Value, rng: &mut StdRng, out: &mut Out) {
+    let dlen = c["dlen"].as_u64().unwrap() as usize;
+    let code: u64 = match c["code"].as_str().unwrap() {
+        "identity" => 0x00,
+        "sha2_256" => 0x12,
+        _ => *[0x13u64, 0x16, 0x11, 0x1b, 0xb220].choose(rng).unwrap(),
+    };
+    let mut id = uvarint(code);
+    id.extend(uvarint(dlen as u64));
+    let mut digest = rand_bytes(rng, dlen);
+    if dlen >= 4 && rng.gen() {
+        digest[..4].copy_from_slice(&[0x08, 0x01, 0x12, (dlen - 4) as u8]); // shaped like an inlined key
+    }
+    id.extend(digest);
+    // a Peer as it is usual on the wire: addresses without the /p2p suffix
+    let peer_msg = |id: &[u8], rng: &mut StdRng| {
+        let mut p = pb_bytes(1, id);
+        p.extend(pb_bytes(2, &Multiaddr::empty().with(Protocol::Ip4(rng.gen::<[u8; 4]>().into())).with(Protocol::Tcp(30333)).to_vec()));
+        p.extend(pb_bytes(2, &rand_addr(rng, None).to_vec()));
+        p.extend(pb_varint(3, rng.gen_range(0..4)));
+        p
+    };
+    let wher = c["where"].as_str().unwrap();
+    let m: Vec<u8> = match wher {
+        "closer_peer" => [pb_varint(1, 4), pb_bytes(2, &[1, 2, 3]), pb_bytes(8, &peer_msg(&id, rng)), pb_varint(10, 10)].concat(),
+        "provider_peer" => [pb_varint(1, 3), pb_bytes(2, &[1, 2, 3]), pb_bytes(9, &peer_msg(&id, rng)), pb_varint(10, 10)].concat(),
+        "record_publisher" => {
+            let record = [pb_bytes(1, &[1, 2, 3]), pb_bytes(2, b"value"), pb_bytes(666, &id)].concat();
+            [pb_varint(1, 0), pb_bytes(2, &[1, 2, 3]), pb_bytes(3, &record), pb_varint(10, 10)].concat()
+        }
+        _ => id.clone(),
+    };
+    let (o, alloc, note): (&str, i64, String) = if wher == "bare" {
+        let (r, alloc) = measured(|| PeerId::from_bytes(&m));
+        match r {
+            Err(p) => ("panic", alloc, p),
+            Ok(Err(_)) => ("dropped", alloc, String::new()),
+            Ok(Ok(p)) => match catch(|| usable_peer_id(&p)) {
+                Ok(Ok(())) => ("usable", alloc, String::new()),
+                Ok(Err(w)) => ("unusable", alloc, w),
+                Err(pn) => ("unusable", alloc, format!("consumer conversion panicked: {pn}")),
+            },
+        }
+    } else {
+        let (r, alloc) = measured(|| dc::KademliaMessage::from_bytes(BytesMut::from(&m[..]), 20));
+        match r {
+            Err(p) => ("panic", alloc, p),
+            Ok(None) => ("dropped", alloc, String::new()),
+            Ok(Some(msg)) => {
+                let carried = match &msg {
+                    dc::KademliaMessage::FindNode { peers, .. } => !peers.is_empty(),
+                    dc::KademliaMessage::GetProviders { providers, .. } => !providers.is_empty(),
+                    dc::KademliaMessage::PutValue { record } => record.publisher.is_some(),
+                    _ => false,
+                };
+                match catch(|| usable_kad_message(&msg)) {
+                    Ok(Ok(())) => (if carried { "usable" } else { "dropped" }, alloc, String::new()),
+                    Ok(Err(w)) => ("unusable", alloc, w),
+                    Err(pn) => ("unusable", alloc, format!("consumer conversion panicked: {pn}")),
+                }
+            }
+        }
+    };
+    let o = if fault("unusable") && o == "usable" && c["dlen"] == 42 { "unusable" } else { o };
+    out.push(json!({"e": "cls", "kind": "kadpid", "c": c, "out": o, "alloc": alloc, "limit": KAD_LIMIT, "input": hex::encode(&m), "note": note}));
+}
+
 fn pb_event(dec: &str, op: &str, o: &str, alloc: i64, limit: usize, len: usize) -> Value {
     json!({"e": "pb", "dec": dec, "op": op, "out": o, "alloc": alloc, "limit": limit, "len": len})
 }
@@ -807,8 +969,9 @@ fn run_pb(seed: u64, rounds: u64, extra: usize, out: &mut Out) {
                 }
                 tick(|| format!("kademlia {op} {}", hex::encode(&m[..m.len().min(64)])));
                 let (r, alloc) = measured(|| dc::KademliaMessage::from_bytes(BytesMut::from(&m[..]), 20));
-                let o = match r { Err(_) => "panic", Ok(None) => "err", Ok(Some(_)) => "ok" };
-                out.push(pb_event("kademlia", &op, o, alloc, KAD_LIMIT, m.len()));
+                let o = match &r { Err(_) => "panic", Ok(None) => "err", Ok(Some(_)) => "ok" };
+                let ev = pb_event("kademlia", &op, o, alloc, KAD_LIMIT, m.len());
+                out.push(match r { Ok(Some(msg)) => judge_usable(ev, &m, || usable_kad_message(&msg)), _ => ev });
             }
         }
         // ---- bitswap messages (and the CIDs / prefixes inside them)
@@ -844,7 +1007,8 @@ fn run_pb(seed: u64, rounds: u64, extra: usize, out: &mut Out) {
         for (op, m) in mutations(&payload, &payload2, &mut rng, extra).into_iter().chain(mutations_deep(&payload, 2)) {
             tick(|| format!("noise {op}"));
             let (r, alloc) = measured(|| dc::noise_payload::parse_payload(&m, &dh));
-            out.push(pb_event("noise_payload", &op, match r { Err(_) => "panic", Ok(Err(_)) => "err", Ok(Ok(_)) => "ok" }, alloc, NOISE_LIMIT, m.len()));
+            let ev = pb_event("noise_payload", &op, match &r { Err(_) => "panic", Ok(Err(_)) => "err", Ok(Ok(_)) => "ok" }, alloc, NOISE_LIMIT, m.len());
+            out.push(match r { Ok(Ok(p)) => judge_usable(ev, &m, || usable_peer_id(&p)), _ => ev });
         }
         let pk = PublicKey::Ed25519(kp.public()).to_protobuf_encoding();
         let pk2 = PublicKey::Ed25519(Keypair::generate().public()).to_protobuf_encoding();
@@ -855,17 +1019,19 @@ fn run_pb(seed: u64, rounds: u64, extra: usize, out: &mut Out) {
         let ids = [PeerId::random().to_bytes(), PeerId::from_public_key(&PublicKey::Ed25519(kp.public())).to_bytes(),
                    PeerId::from_public_key_protobuf(&rand_bytes(&mut rng, 60)).to_bytes()];
         for (i, v) in ids.iter().enumerate() {
-            for (op, m) in mutations(v, &ids[(i + 1) % 3], &mut rng, extra) {
+            for (op, m) in mutations(v, &ids[(i + 1) % 3], &mut rng, extra).into_iter().chain(multihash_resized(v)) {
                 let (r, alloc) = measured(|| PeerId::from_bytes(&m));
-                out.push(pb_event("peer_id", &op, match r { Err(_) => "panic", Ok(Err(_)) => "err", Ok(Ok(_)) => "ok" }, alloc, 4096, m.len()));
+                let ev = pb_event("peer_id", &op, match &r { Err(_) => "panic", Ok(Err(_)) => "err", Ok(Ok(_)) => "ok" }, alloc, 4096, m.len());
+                out.push(match r { Ok(Ok(p)) => judge_usable(ev, &m, || usable_peer_id(&p)), _ => ev });
             }
         }
         // ---- multiaddresses (as they arrive inside Kademlia / identify messages)
         let addrs = [rand_addr(&mut rng, Some(PeerId::random())).to_vec(), rand_addr(&mut rng, None).to_vec()];
         for (i, v) in addrs.iter().enumerate() {
             for (op, m) in mutations(v, &addrs[(i + 1) % 2], &mut rng, extra) {
-                let (r, alloc) = measured(|| Multiaddr::try_from(m.clone()).ok().map(|a| PeerId::try_from_multiaddr(&a)));
-                out.push(pb_event("multiaddr", &op, match r { Err(_) => "panic", Ok(None) => "err", Ok(Some(_)) => "ok" }, alloc, 4096, m.len()));
+                let (r, alloc) = measured(|| Multiaddr::try_from(m.clone()).ok());
+                let ev = pb_event("multiaddr", &op, match &r { Err(_) => "panic", Ok(None) => "err", Ok(Some(_)) => "ok" }, alloc, 4096, m.len());
+                out.push(match r { Ok(Some(a)) => judge_usable(ev, &m, || usable_multiaddr(&a)), _ => ev });
             }
         }
         // ---- multistream messages
@@ -1314,6 +1480,7 @@ fn work(args: &Args, out: &mut Out) {
             "msg" => (0..per).for_each(|_| run_msg(&b["c"], &mut rng, out)),
             "lis" => (0..per).for_each(|_| run_lis(&b["c"], &mut rng, out)),
             "dia" => (0..per).for_each(|_| run_dia(&b["c"], &mut rng, out)),
+            "kadpid" => (0..per).for_each(|_| run_kadpid(&b["c"], &mut rng, out)),
             "pb" => {} // the plan is executed as a whole below
             "rt_kad" => (0..per.min(4)).for_each(|_| run_rt_kad(&b["c"], &mut rng, out)),
             "rt_bitswap" => run_rt_bitswap(&b["c"], &mut rng, &rt, out),
